@@ -118,10 +118,77 @@ def same_value(a, b):
     return ca == cb
 
 
+def twin_arrays(rng, dtype):
+    """arrays over different symmetries sharing identical index tables, directions and stored
+    sectors (charges 0/1 are valid for Z2, Z4 and U1): near-identical inputs for the fuse cache"""
+    import symmray as sr
+
+    nd = rng.randint(2, 4)
+    idx = [sr.BlockIndex({c: rng.randint(1, 2) for c in rng.sample([0, 1], rng.randint(1, 2))},
+                         dual=rng.random() < 0.5) for _ in range(nd)]
+    out = {}
+    # sectors valid under every symmetry of the family: chosen from those valid for U1 (hence Z2, Z4 with
+    # the same total charge reduced) is not generally true, so each twin keeps the sectors valid for itself
+    # among a common random candidate list; identical stored sectors arise whenever validity coincides.
+    cands = [s for s in itertools.product(*[sorted(ix.chargemap) for ix in idx]) if rng.random() < 0.7]
+    for sym in ("Z2", "U1", "Z4"):
+        duals = [ix.dual for ix in idx]
+        charge = gen.py_sector_charge(sym, cands[0], duals) if cands else gen.py_combine(sym, [])
+        secs = [s for s in cands if gen.py_sector_charge(sym, s, duals) == charge]
+        blocks = {s: gen.rand_block(rng, tuple(ix.chargemap[c] for ix, c in zip(idx, s)), dtype) for s in secs}
+        cls, kw = gen.array_class(sym, False, sym != "Z4" and rng.random() < 0.5)
+        out[sym] = cls(indices=idx, charge=charge, blocks=blocks, **kw)
+    return out
+
+
+def cache_off_fuse(x, groups, mode):
+    import symmray.abelian_core as ac
+
+    old = ac._fuseinfo_cache_maxsize
+    ac._fuseinfo_cache_maxsize = 0
+    try:
+        return x.fuse(*groups, mode=mode)
+    finally:
+        ac._fuseinfo_cache_maxsize = old
+
+
 def gen_cases(seed, chunk, n, tier):
     rng = random.Random(seed * 7919 + chunk * 104729 + 5)
     out = []
-    for _ in range(n):
+    ntw = max(1, n // 6)
+    for _ in range(ntw):
+        # fuse cache on/off over near-identical arrays of different symmetry, in random order
+        dtype = rng.choice(["float64", "complex128"])
+        tw = twin_arrays(rng, dtype)
+        nd = tw["Z2"].ndim
+        groups = progs.rand_groups(rng, nd, max_groups=2)
+        if not any(len(g) > 1 for g in groups):
+            groups = [list(range(nd))[::-1][:2]] if nd >= 2 else groups
+        mode = rng.choice(["insert", "concat"])
+        order = rng.sample(sorted(tw), len(tw))
+        env = {f"x_{sym}": tw[sym] for sym in tw}
+        steps = [{"out": [f"f_{sym}"], "op": "fuse", "in": [f"x_{sym}"], "params": {"groups": groups, "mode": mode}}
+                 for sym in order if tw[sym].blocks]
+        res, env2 = impl.run_prog(env, steps)
+        orc = None
+        for st, r in zip(steps, res):
+            if "ok" not in r:
+                orc = f"fuse raised {r.get('msg')}"
+                break
+            x = env[st["in"][0]]
+            ref = cache_off_fuse(x, [tuple(g) for g in groups], mode)
+            if not same_value(env2[st["out"][0]], ref):
+                orc = ("fuse with the fuse-info cache enabled differs from the result with the cache disabled "
+                       f"(history: {order})")
+                break
+            orc = address_map_check(x, env2[st["out"][0]], groups)
+            if orc:
+                break
+        same = len({tuple(tw[s].blocks) for s in tw}) < len(tw)
+        out.append(dict(case=_mk_case(env, steps), impl=stream.strip_py(res), oracle=orc,
+                        meta=dict(sym="twins", fermi=False, mode=mode, ngroups=len(groups), same_sectors=same),
+                        nontrivial=bool(same), op="fuse", triggers=[]))
+    for _ in range(n - ntw):
         sym = rng.choice(gen.SYMS)
         fermi = rng.random() < 0.45
         static = rng.random() < 0.7
